@@ -575,8 +575,19 @@ pub fn gen_large_session(rng: &mut Rng, p: &Profile) -> (SessionCfg, Vec<Op>) {
                 if rng.chance(40) {
                     // one long text: more than 255 / 256 characters in one write, with and without line breaks inside
                     let unit = *rng.pick(&["xy", "é", "x\ny", "€ ", "z"]);
-                    let n = burst_len(rng);
-                    c.push(WCall { kind: *rng.pick(&[WKind::Str, WKind::Ln, WKind::Ufmt, WKind::Fmt]), text: unit.repeat(n) });
+                    // any length, and often a last line of exactly 255 / 256 / 257 / 512 bytes (a column or length counter of one octet)
+                    let n = if rng.chance(40) { (*rng.pick(&[255usize, 256, 256, 257, 512, 768]) + unit.len() - 1) / unit.len() } else { burst_len(rng) };
+                    let mut text = unit.repeat(n);
+                    if rng.chance(50) && !unit.contains('\n') {
+                        let want = *rng.pick(&[256usize, 512, 256]);
+                        while text.len() > want {
+                            text.pop();
+                        }
+                        while text.len() < want {
+                            text.push('x');
+                        }
+                    }
+                    c.push(WCall { kind: *rng.pick(&[WKind::Str, WKind::Ln, WKind::Ufmt, WKind::Fmt]), text });
                 }
                 ops.push(Op::Write(c));
             }
